@@ -45,6 +45,7 @@ Facts(c) ==
     [] c = "DATE"     -> F(FALSE, FALSE, FALSE, "n", "n", "na", "n", "y", "n", TRUE)       \* YYYY-MM-DD, valid
     [] c = "BADDATE"  -> F(FALSE, FALSE, FALSE, "n", "n", "na", "n", "n", "n", TRUE)       \* 2021-02-30, 2020-13-01
     [] c = "URI"      -> F(FALSE, FALSE, FALSE, "n", "n", "na", "n", "n", "y", TRUE)       \* http/https/ftp with host
+    [] c = "URI_FULL" -> F(FALSE, FALSE, FALSE, "n", "n", "na", "n", "n", "y", TRUE)       \* every RFC 3986 component: userinfo, port, IP-literal host, pct-encoding, query, fragment
     [] c = "URI_BADSCHEME" -> F(FALSE, FALSE, FALSE, "n", "n", "na", "n", "n", "n", TRUE)
     [] c = "URI_NOSCHEME"  -> F(FALSE, FALSE, FALSE, "n", "n", "na", "n", "n", "n", TRUE)
     [] c = "URI_NOHOST"    -> F(FALSE, FALSE, FALSE, "n", "n", "na", "n", "n", "n", TRUE)
@@ -56,7 +57,7 @@ Facts(c) ==
 IntClass(b) == F(FALSE, FALSE, FALSE, "y", "y", b, "u", "u", "n", TRUE)     \* canonical integers that are not 4-digit years
 DecClass(b) == F(FALSE, FALSE, FALSE, "n", "y", b, "u", "n", "n", TRUE)     \* canonical decimals ("12.5" is an ISO fractional hour for Python)
 PlainClasses == {"NONE", "EMPTY", "BLANK", "TEXT", "UNICODE", "SURROGATE", "INT4", "SCI", "NAN", "PINF", "NINF", "OVERFLOW",
-                 "UNDERFLOW", "TIME", "BADTIME", "DATE", "BADDATE", "URI", "URI_BADSCHEME", "URI_NOSCHEME", "URI_NOHOST", "URI_EXOTIC",
+                 "UNDERFLOW", "TIME", "BADTIME", "DATE", "BADDATE", "URI", "URI_FULL", "URI_BADSCHEME", "URI_NOSCHEME", "URI_NOHOST", "URI_EXOTIC",
                  "LENIENT_INT", "LENIENT_FLOAT", "LENIENT_TIME", "LENIENT_DATE"}
 (* a class is a record [cls, bucket]; bucket "" for plain classes *)
 AllClasses == {[cls |-> c, bucket |-> ""] : c \in PlainClasses}
